@@ -20,7 +20,7 @@ META = dict(
         quick="degree 0..3, <=2 distinct interior knots, every multiplicity pattern 1..p+1; "
               "scalar and 2-D points; polynomial and rational; scalar call, .eval, 2-node sequence; "
               "plus int- and Fraction-typed concrete vectors with symbolic u and control points",
-        thorough="degree 0..5 (<=2 interior knots, all patterns), degree 0..3 with 3 interior knots (sampled patterns)",
+        thorough="degree 0..5 (<=2 interior knots, all patterns), degree 0..3 with 3 interior knots (sampled patterns); rational up to degree 2, and degree 3 with <=1 interior knot",
     ),
     assumptions=[
         "numbers are exact reals (Fraction semantics); float rounding is not modelled",
@@ -49,8 +49,8 @@ def configs(tier, seed):
         for v in _variants(p, pat, k + seed):
             if v["call"] == "seq" and len(pat) > 3:
                 v = dict(v, call="eval")
-            if v["rational"] and (p >= 4 or (p == 3 and len(pat) > 3 and tier == "quick")):
-                continue
+            if v["rational"] and (p >= 4 or (p == 3 and len(pat) > 3)):
+                continue  # (degree 3 with two interior knots: nlsat does not prove sum w_i N_i != 0 in time)
             name = f"S p={p} mults={pat} {'rat' if v['rational'] else 'pol'} dim={v['dim']} {v['call']}"
             cfgs.append(dict(name=name, mode="S", p=p, mults=pat, **v))
     # concrete (K) vectors: int-typed and Fraction-typed, symbolic u and control points
